@@ -398,3 +398,17 @@ SILENT += [
 FIRING += [
     ("new-global-cell-never-cleared", "jesse/config.py", _NEW_CELL, None, ["C11"]),
 ]
+
+
+# ---- harmless surplus in the end-of-minute protocol (every candle set pruned as well): accepted
+SILENT += [
+    ("multi-symbol-replay-prunes-every-candle-set-too", BT, [("""                for r in router.routes:
+                    store.orders.update_active_orders(r.exchange, r.symbol)
+                _execute_market_orders()
+""", """                for r in router.routes:
+                    store.orders.update_active_orders(r.exchange, r.symbol)
+                for jj in candles:
+                    store.orders.update_active_orders(candles[jj]['exchange'], candles[jj]['symbol'])
+                _execute_market_orders()
+""")], None, ["C02", "C05", "C12", "C01"]),
+]
